@@ -6128,6 +6128,8 @@ class Path(Shape, MutableSequence):
     def vertical(self, *y_points, relative=False, **kwargs):
         for index in range(len(y_points)):
             start_pos = self.current_point
+            if start_pos is None:
+                raise ValueError("vertical line requires a current point")
             if relative:
                 self.append(
                     Line(
@@ -6149,6 +6151,8 @@ class Path(Shape, MutableSequence):
     def horizontal(self, *x_points, relative=False, **kwargs):
         for index in range(len(x_points)):
             start_pos = self.current_point
+            if start_pos is None:
+                raise ValueError("horizontal line requires a current point")
             if relative:
                 self.append(
                     Line(
@@ -6290,6 +6294,8 @@ class Path(Shape, MutableSequence):
     def arc(self, *arc_args, relative=False, **kwargs):
         for index in range(0, len(arc_args), 6):
             start_pos = self.current_point
+            if start_pos is None:
+                raise ValueError("arc requires a current point")
             rx = arc_args[index]
             ry = arc_args[index + 1]
             if rx < 0:
